@@ -26,7 +26,7 @@ class Prop:
     trusted = []
     design_ref = ""
 
-    def oracle(self, case, impl):
+    def oracle(self, case, impl, model=None):
         """None if the property holds on this implementation output, else a message."""
         return None
 
@@ -43,6 +43,14 @@ class Prop:
     def comparable(self, case, impl, model):
         """False when the implementation rejected an input the model does not cover (counted, not compared)."""
         return True
+
+    def release_case(self, case):
+        """The case line to use when the release build of the harness is driven."""
+        return case
+
+    def model_part(self, model):
+        """The part of the model's output line that mirrors the implementation."""
+        return model
 
 
 def _parse_c06(case):
@@ -75,7 +83,7 @@ class C06(Prop):
         "unbounded arrays and multi-dimensional resource arrays excluded (as in the property)",
     ]
 
-    def oracle(self, case, impl):
+    def oracle(self, case, impl, model=None):
         if impl.startswith("REJECT") or impl.startswith("BAD"):
             return None
         cfg, dflt, decls, spec = _parse_c06(case)
@@ -237,7 +245,7 @@ class C19(Prop):
         "u32 arithmetic modelled in N (no claim for sizes >= 2^32); matrices/objects have no layout (UNKNOWN)",
     ]
 
-    def oracle(self, case, impl):
+    def oracle(self, case, impl, model=None):
         if impl.startswith("REJECT") or impl.startswith("BAD"):
             return None
         w = case.split()
@@ -456,7 +464,7 @@ class C11(Prop):
         "#else/#elif after #else is outside the property's text: the model keeps the code's behaviour (accepted), the theorems and the oracle exclude it",
     ]
 
-    def oracle(self, case, impl):
+    def oracle(self, case, impl, model=None):
         exp = _c11_reference(case)
         if exp is None:
             return None
@@ -546,7 +554,7 @@ class C16(Prop):
         "templates, matrices, enums, structs/objects as parameters are outside the model",
     ]
 
-    def oracle(self, case, impl):
+    def oracle(self, case, impl, model=None):
         parts = case.split("|")
         v1, _, v2 = impl.partition(" ; ")
         if "REJECT" in impl or "BAD" in impl:
@@ -584,4 +592,49 @@ class C16(Prop):
         return "overloads=%d params=%d" % (len(parts[0].split()), len(parts[1].split()))
 
 
-PROPS = {p.id: p for p in [C06(), C19(), C11(), C16()]}
+class C13(Prop):
+    id = "C13"
+    gens = ["GenEvaluator"]
+    header = 0
+    n_quick = 3000
+    n_thorough = 60000
+    release_too = True
+    allowed_axioms = []
+    design_ref = "DESIGN.md §4 C13"
+    assumptions = [
+        "reference = Evaluator.v ref_eval (ref_arith/ref_neg/ref_cast...: 32-bit wrap-around, 5-bit shift counts, exact literal arithmetic in a 128-bit carrier, Rust-`as`/D3D float->int conversion, round-to-nearest-even int->float)",
+        "model: coq/model/Evaluator.v mirrors evaluate_constexpr/operator/cast; every arm's Rust operator is regenerated from typer/src/evaluator.rs (GenEvaluator) and interpreted by rust_arith/rust_neg with explicit debug-build panics",
+        "the IR of each initialiser is taken from the non-const variant of the same declaration and serialised by the harness; variables, globals and sizeof of non-scalars are outside the model (X)",
+        "floating point via Flocq binary32/binary64 (half carries single precision, as in the code); NaN payloads are canonicalised",
+        "the asserts on mixed enum / non-enum operands and `~` on a non-integer constant are modelled as Panic and excluded from the theorem's domain by wf_expr only through reachability (the typer inserts casts); they are exercised by the correspondence run",
+    ]
+
+    def release_case(self, case):
+        return "0" + case[1:] if case.startswith("1 ") else case
+
+    def model_part(self, model):
+        return model.split(" ; ")[0] if model else model
+
+    def comparable(self, case, impl, model):
+        return not (impl.startswith("REJECT") or impl.startswith("IR-CHANGED") or impl.startswith("BAD"))
+
+    def oracle(self, case, impl, model=None):
+        if not model or " ; " not in model or not self.comparable(case, impl, model):
+            return None
+        ref = model.split(" ; ")[1]
+        if impl.startswith("PANIC"):
+            return "constant evaluation aborted (reference value: %s)" % ref
+        if impl != ref:
+            return "the evaluator yields %r, HLSL semantics define %r" % (impl, ref)
+        return None
+
+    def nontrivial(self, case, impl):
+        return case.count(" B ") + case.count(" U ") + case.count(" C ") >= 2
+
+    def kind(self, case):
+        ir = case.split(" # ")[0]
+        n = ir.count(" B ") + ir.count(" U ") + ir.count(" C ")
+        return "%s nodes=%s" % (case.split(" # ")[1] if " # " in case else "?", n if n < 4 else ("4-8" if n <= 8 else "9+"))
+
+
+PROPS = {p.id: p for p in [C06(), C19(), C11(), C16(), C13()]}
